@@ -244,7 +244,6 @@ func TestSchedEnum(t *testing.T) {
 		bound, _ = strconv.Atoi(b)
 	}
 	bad := 0
-	unit := 0
 	perCase := map[int]int{}
 	// a bound in schedules per work unit keeps the deepest cases inside the tier's time; units cut off by it are
 	// counted and take the claim of completeness away
@@ -253,8 +252,8 @@ func TestSchedEnum(t *testing.T) {
 	for ci, cs := range pairCases {
 		cs.Seed = uint64(ci)
 		for sub := 0; sub < 8; sub++ {
-			unit++
-			if unit%n != shard {
+			// the deepest subtree of a case is the one that starts without a pre-emption (sub 0): spread those over the shards
+			if (ci*9+sub)%n != shard {
 				continue
 			}
 			fixed := []int{sub & 1, (sub >> 1) & 1, (sub >> 2) & 1}
